@@ -216,6 +216,9 @@ class AmfAdvFamily(Family):
             for n in (0, 1, 62, 63, 64, 125, 126, 127, 128, 129):
                 bump(stats, "adv_edge")
                 yield [f"!amf.adv {kind} {n} 512"]
+        for m in range(256):
+            bump(stats, "adv_run_of_one_byte")
+            yield [f"!amf.adv run {m} 512"]
         for n in (0, 10, 70000):
             yield [f"!amf.adv strlen {n} 512"]
         for n in (1000, 100000, 1000000 if tier == "quick" else 16_000_000):
@@ -279,6 +282,8 @@ class ChunkFamily(Family):
             for m in dict.fromkeys(masks):
                 sz = GC.rand_sizes(rng, total)
                 ops += ["des.new", f"des.feedpk {m} {sz}", f"!chunk.rt {m} {sz}", f"!chunk.ref {m}"]
+            # … and by the marks the real serializer returned (whatever the generator believes is droppable)
+            ops += [f"!chunk.rt flagged {GC.rand_sizes(rng, total)}", "!chunk.ref flagged", "!chunk.ref flagged2"]
         return ops
 
     def gen(self, rng, tier, pid, stats):
